@@ -19,7 +19,7 @@ var hostileNames = []string{
 	"../evil", "../../evil", "../../../../../../../../tmp/simlens-evil", "/tmp/simlens-evil-abs", "a/../../evil", "..", ".", "a/b/c",
 	"..\\evil", "%2e%2e%2fevil", "%2e%2e/%2e%2e/evil", "....//evil", "sent/keep", "../sent/keep", "../../sent/keep.csv", "evil\x00tail",
 	"..%2fevil", "%252e%252e%252fevil", "‥/evil", "．．/evil", "..;/evil", strings.Repeat("A", 300), strings.Repeat("../", 40) + "etc/passwd",
-	"d/../../evil", "./../evil", "logs/../../evil", "~/evil", "$HOME/evil", "con", "nul", "a\nb", " ", "x y", "-rf",
+	"../../../evil", "../../../../evil", "../../../../../sent/keep", "../../../../etc/passwd", "d/../../evil", "./../evil", "logs/../../evil", "~/evil", "$HOME/evil", "con", "nul", "a\nb", " ", "x y", "-rf",
 }
 
 var benignNames = []string{"good", "ok-1", "my_index", "Report2024", "a.b"}
@@ -49,7 +49,29 @@ func genPathPlan(r *rand.Rand) *plan.Plan {
 		if r.IntN(4) == 0 {
 			return benignNames[r.IntN(len(benignNames))]
 		}
-		return hostileNames[r.IntN(len(hostileNames))]
+		nm := hostileNames[r.IntN(len(hostileNames))]
+		// one name in three travels percent-encoded (separators, dots, or both; upper or lower hex): a check that
+		// runs before a decode sees no separator in it. Names that already carry an encoding get a second layer.
+		if r.IntN(3) == 0 {
+			slash, dots := "%2F", "%2E%2E"
+			if r.IntN(2) == 0 {
+				slash, dots = "%2f", "%2e%2e"
+			}
+			switch r.IntN(3) {
+			case 0:
+				nm = strings.ReplaceAll(nm, "/", slash)
+			case 1:
+				nm = strings.ReplaceAll(strings.ReplaceAll(nm, "/", slash), "..", dots)
+			default:
+				nm = strings.ReplaceAll(strings.ReplaceAll(nm, "%", "%25"), "/", slash)
+			}
+			nm = strings.ReplaceAll(nm, "\\", "%5C")
+		}
+		// lookup files are stored under *.csv / *.csv.gz: some names carry the extension themselves
+		if r.IntN(4) == 0 {
+			nm += []string{".csv", ".csv.gz", ".CSV"}[r.IntN(3)]
+		}
+		return nm
 	}
 	httpOp := func(server, method, path, body string, hdr map[string]any, api string) plan.Op {
 		args := map[string]any{"server": server, "method": method, "path": path, "api": api}
